@@ -120,13 +120,31 @@ impl<const S: usize> SLu<S> {
     { unimplemented!() }
 }
 
-// ---- operations used only by the Broyden update of `secant`: typed, but with NO contract (nothing about their
-// values is assumed, so nothing about the in-loop algebra of secant is decided) -- except where stated.
-pub struct SRow<const S: usize> { pub id: Ghost<int> }
+// ---- operations used only by the Broyden update of `secant`.  Row vectors carry their entries; products with abstract matrices are
+// uninterpreted and related to mv() by the linear-algebra axioms below (TRUSTED: standard identities of matrix algebra).
+pub struct SRow<const S: usize> { pub v: Ghost<Seq<real>> }
 impl<const S: usize> Clone for SRow<S> { #[verifier::external_body] fn clone(&self) -> (r: Self) ensures r == *self { unimplemented!() } }
 impl<const S: usize> Copy for SRow<S> {}
-pub struct S11 { pub id: Ghost<int> }
-impl S11 { #[verifier::external_body] pub fn vx_at(&self, idx: (usize, usize)) -> (r: R) { unimplemented!() } }
+pub struct S11 { pub x: Ghost<real> }
+impl S11 { #[verifier::external_body] pub fn vx_at(&self, idx: (usize, usize)) -> (r: R) ensures r@ == self.x@ { unimplemented!() } }
+pub uninterp spec fn wdot(a: Seq<real>, b: Seq<real>) -> real;          // scalar product
+pub uninterp spec fn rowmul(s: Seq<real>, m: int) -> Seq<real>;       // the row vector s^T M, as a vector
+pub uninterp spec fn mouter(a: Seq<real>, u: Seq<real>) -> int;       // the matrix a u^T
+pub uninterp spec fn mdivs(m: int, p: real) -> int;                   // M / p
+pub uninterp spec fn madd(a: int, b: int) -> int;                     // A + B
+// (s^T M) y = s^T (M y);  (a u^T) y = a (u . y);  (M / p) y = (M y) / p;  (A + B) y = A y + B y;  (-M) y = -(M y);  (-s) . v = -(s . v)
+#[verifier::external_body]
+pub proof fn axiom_rowmul(s: Seq<real>, m: int, y: Seq<real>) ensures wdot(rowmul(s, m), y) == wdot(s, mv(m, y)) {}
+#[verifier::external_body]
+pub proof fn axiom_mouter(a: Seq<real>, u: Seq<real>, y: Seq<real>) ensures mv(mouter(a, u), y) == wscale(a, wdot(u, y)) {}
+#[verifier::external_body]
+pub proof fn axiom_mdivs(m: int, p: real, y: Seq<real>) requires p != 0real ensures mv(mdivs(m, p), y) == wscale(mv(m, y), 1real / p) {}
+#[verifier::external_body]
+pub proof fn axiom_madd(a: int, b: int, y: Seq<real>) ensures mv(madd(a, b), y) == wadd(mv(a, y), mv(b, y)) {}
+#[verifier::external_body]
+pub proof fn axiom_mneg(m: int, y: Seq<real>) ensures mv(mneg(m), y) == wneg(mv(m, y)), mv(m, y).len() == y.len() {}
+#[verifier::external_body]
+pub proof fn axiom_wdot_neg(s: Seq<real>, v: Seq<real>) ensures wdot(wneg(s), v) == -wdot(s, v), wdot(s, wneg(v)) == -wdot(s, v) {}
 pub uninterp spec fn minv(m: int) -> int;        // inverse
 pub uninterp spec fn mneg(m: int) -> int;        // negation
 // (-M) 0 = 0 and M 0 = 0 (linearity of the matrix-vector product at the zero vector)
@@ -141,7 +159,7 @@ impl<const S: usize> SLu<S> {
 }
 impl<const S: usize> SV<S> {
     #[verifier::external_body]
-    pub fn transpose(&self) -> (r: SRow<S>) { unimplemented!() }
+    pub fn transpose(&self) -> (r: SRow<S>) ensures r.v@ == self@ { unimplemented!() }
     // `guess += &shift`
     #[verifier::external_body]
     pub fn vx_add_assign(&mut self, rhs: &SV<S>) requires old(self)@.len() == rhs@.len() ensures final(self)@ == wadd(old(self)@, rhs@) { unimplemented!() }
@@ -169,34 +187,34 @@ impl<const S: usize> NegSpecImpl for SRow<S> {
     open spec fn neg_req(self) -> bool { true }
     open spec fn neg_spec(self) -> SRow<S> { arbitrary() }
 }
-impl<const S: usize> core::ops::Neg for SRow<S> { type Output = SRow<S>; #[verifier::external_body] fn neg(self) -> (r: SRow<S>) { unimplemented!() } }
+impl<const S: usize> core::ops::Neg for SRow<S> { type Output = SRow<S>; #[verifier::external_body] fn neg(self) -> (r: SRow<S>) ensures r.v@ == wneg(self.v@) { unimplemented!() } }
 impl<const S: usize> MulSpecImpl<SV<S>> for SRow<S> {
     open spec fn obeys_mul_spec() -> bool { false }
     open spec fn mul_req(self, rhs: SV<S>) -> bool { true }
     open spec fn mul_spec(self, rhs: SV<S>) -> S11 { arbitrary() }
 }
-impl<const S: usize> core::ops::Mul<SV<S>> for SRow<S> { type Output = S11; #[verifier::external_body] fn mul(self, rhs: SV<S>) -> (r: S11) { unimplemented!() } }
+impl<const S: usize> core::ops::Mul<SV<S>> for SRow<S> { type Output = S11; #[verifier::external_body] fn mul(self, rhs: SV<S>) -> (r: S11) ensures r.x@ == wdot(self.v@, rhs@) { unimplemented!() } }
 impl<const S: usize> MulSpecImpl<SM<S>> for SRow<S> {
     open spec fn obeys_mul_spec() -> bool { false }
     open spec fn mul_req(self, rhs: SM<S>) -> bool { true }
     open spec fn mul_spec(self, rhs: SM<S>) -> SRow<S> { arbitrary() }
 }
-impl<const S: usize> core::ops::Mul<SM<S>> for SRow<S> { type Output = SRow<S>; #[verifier::external_body] fn mul(self, rhs: SM<S>) -> (r: SRow<S>) { unimplemented!() } }
+impl<const S: usize> core::ops::Mul<SM<S>> for SRow<S> { type Output = SRow<S>; #[verifier::external_body] fn mul(self, rhs: SM<S>) -> (r: SRow<S>) ensures r.v@ == rowmul(self.v@, rhs.id@) { unimplemented!() } }
 impl<const S: usize> MulSpecImpl<SRow<S>> for SV<S> {
     open spec fn obeys_mul_spec() -> bool { false }
     open spec fn mul_req(self, rhs: SRow<S>) -> bool { true }
     open spec fn mul_spec(self, rhs: SRow<S>) -> SM<S> { arbitrary() }
 }
-impl<const S: usize> core::ops::Mul<SRow<S>> for SV<S> { type Output = SM<S>; #[verifier::external_body] fn mul(self, rhs: SRow<S>) -> (r: SM<S>) { unimplemented!() } }
+impl<const S: usize> core::ops::Mul<SRow<S>> for SV<S> { type Output = SM<S>; #[verifier::external_body] fn mul(self, rhs: SRow<S>) -> (r: SM<S>) ensures r.id@ == mouter(self@, rhs.v@) { unimplemented!() } }
 impl<const S: usize> DivSpecImpl<R> for SM<S> {
     open spec fn obeys_div_spec() -> bool { false }
     open spec fn div_req(self, rhs: R) -> bool { true }
     open spec fn div_spec(self, rhs: R) -> SM<S> { arbitrary() }
 }
-impl<const S: usize> core::ops::Div<R> for SM<S> { type Output = SM<S>; #[verifier::external_body] fn div(self, rhs: R) -> (r: SM<S>) { unimplemented!() } }
+impl<const S: usize> core::ops::Div<R> for SM<S> { type Output = SM<S>; #[verifier::external_body] fn div(self, rhs: R) -> (r: SM<S>) ensures r.id@ == mdivs(self.id@, rhs@) { unimplemented!() } }
 impl<const S: usize> SM<S> {
     // `jac_inv += M`
     #[verifier::external_body]
-    pub fn vx_add_assign(&mut self, rhs: SM<S>) { unimplemented!() }
+    pub fn vx_add_assign(&mut self, rhs: SM<S>) ensures final(self).id@ == madd(old(self).id@, rhs.id@) { unimplemented!() }
 }
 
